@@ -802,7 +802,7 @@ def real_verdict(spec, bytes_, markers):
     return bool(r["accepted"] and r["markers"] == list(markers)), r
 
 
-def decide_equiv(run, ob, rjson, auto, N, variant=None, spec=None, timeout=60, cross=0):
+def decide_equiv(run, ob, rjson, auto, N, variant=None, spec=None, timeout=60, cross=0, n_min=8):
     """language + marker equivalence of the dumped automaton and the reference language, every word
     length 0..N. spec: what `ax run` must rebuild for a replay (default {"r": rjson})."""
     spec = spec or {"r": rjson}
@@ -836,6 +836,11 @@ def decide_equiv(run, ob, rjson, auto, N, variant=None, spec=None, timeout=60, c
                     witness = n
             continue
         if r.status != "sat":
+            if n > n_min:
+                # the target bound is not reached within the cap: the claim is lowered to the lengths decided
+                reached = n - 1
+                ob.bound = f"word length <= {reached} (target {N}: solver gave no answer at length {n} within {timeout}s); markers <= 64"
+                break
             return ob.set(INCONCLUSIVE, f"length {n}: solver {r.status} {r.raw[:160]}")
         w = [r.model.get(f"b{i}", 0) for i in range(n)]
         m = [r.model.get(f"m{i}", 0) for i in range(n)]
@@ -1326,6 +1331,9 @@ DEFECT_PROBES = [
     ("neg[epsilon]", "regex:neg-of-transitionless", {"op": "neg", "x": {"op": "epsilon"}}),
     ("neg[empty]", "regex:neg-of-transitionless", {"op": "neg", "x": {"op": "union", "xs": []}}),
     ("minus[epsilon]", "regex:neg-of-transitionless", {"op": "minus", "x": {"op": "list", "x": _b('a')}, "y": {"op": "epsilon"}}),
+    ("cat[repeat_at_most0]", "regex:concat-epsilon-component", {"op": "cat", "xs": [_b('b'), {"op": "repeat_at_most", "x": _b('a'), "n": 0}]}),
+    ("terminated[optional-eps]", "regex:concat-epsilon-component", {"op": "terminated", "x": _b('b'), "y": {"op": "optional", "x": {"op": "epsilon"}}}),
+    ("delimited[eps-by-inter]", "regex:concat-epsilon-component", {"op": "delimited", "x": {"op": "and", "x": {"op": "list", "x": _b('a')}, "y": {"op": "list", "x": _b('b')}}, "open": _w("("), "close": _w(")")}),
     ("mark[any]", "regex:mark-over-any-or-neg", {"op": "mark_bytes", "x": {"op": "cat", "xs": [_b('a'), {"op": "any"}]}, "set": [97], "m": 1}),
     ("mark[neg]", "regex:mark-over-any-or-neg", {"op": "mark_bytes", "x": {"op": "neg", "x": _w("b")}, "set": [97], "m": 1}),
 ]
@@ -1415,21 +1423,101 @@ def random_family(seed, count, depth):
     return out
 
 
+def core_reps(c, acc=None):
+    """one representative code point per block of the partition induced by the sets of `c`."""
+    pts = set()
+
+    def walk(x):
+        t = x[0]
+        if t == 'set':
+            for lo, hi in x[1]:
+                pts.add(lo)
+                pts.add(hi + 1)
+        elif t in ('cat', 'alt', 'and'):
+            for y in x[1]:
+                walk(y)
+        elif t == 'plus':
+            walk(x[1])
+        elif t == 'comp':
+            walk(x[1])
+            walk(x[2])
+        elif t == 'all':
+            walk(x[1])
+    walk(c)
+    return sorted(pts)
+
+
+def core_empty(c, reps=None, limit=400):
+    """is the language of `c` empty? (exploration of the derivative automaton over representative
+    letters; None when the exploration exceeds `limit` states). Used only to keep the random family clear
+    of constructs that have their own defect probes."""
+    reps = core_reps(c) if reps is None else reps
+    memo = {}
+    seen = {c}
+    todo = [c]
+    while todo:
+        x = todo.pop()
+        if nullable(x):
+            return False
+        for a in reps:
+            d = deriv(x, a, memo)
+            if d != NONE and d not in seen:
+                seen.add(d)
+                if len(seen) > limit:
+                    return None
+                todo.append(d)
+    return True
+
+
+def only_eps_or_empty(p):
+    """language of the prim tree is a subset of {eps} (True / False / None = unknown)."""
+    c = lower(p)
+    reps = core_reps(c)
+    memo = {}
+    for a in reps:
+        d = deriv(c, a, memo)
+        if d == NONE:
+            continue
+        e = core_empty(d, reps)
+        if e is not True:
+            return e
+    return True
+
+
 def _touches_defect(p):
-    """prim tree uses a complement of a transition-less language, a bare `any`, or a relabelled universe."""
+    """prim tree contains a construct that has its own defect probe: a relabelled universe / complement
+    (mark over any / neg), a complement of a language within {eps} (`neg-of-transitionless`), or a
+    concatenation with a component whose language is exactly {eps} without being the literal empty
+    concatenation (`concat-epsilon-component`). Semantic test (derivatives); unknown counts as touching."""
     t = p[0]
     if t == 'S':
         return False
-    if t in 'CUI':
-        return any(_touches_defect(x) for x in p[1])
-    if t == 'P':
-        return _touches_defect(p[1])
     if t == 'A':
         return {c >> 8 for c in p[1]} != {0}
+    if t == 'P':
+        return _touches_defect(p[1])
+    if t in 'UI':
+        return any(_touches_defect(x) for x in p[1])
     if t == 'N':
         if {c >> 8 for c in p[2]} != {0}:
             return True
-        return _no_letters(p[1]) or _touches_defect(p[1])
+        if only_eps_or_empty(p[1]) is not False:
+            return True
+        return _touches_defect(p[1])
+    if t == 'C':
+        flat, todo = [], list(p[1])
+        while todo:
+            x = todo.pop(0)
+            if x[0] == 'C':
+                todo = list(x[1]) + todo
+            else:
+                flat.append(x)
+        for x in flat:
+            if _touches_defect(x):
+                return True
+            if nullable(lower(x)) and only_eps_or_empty(x) is not False:
+                return True
+        return False
     return False
 
 
